@@ -83,6 +83,21 @@ func (c *Ctx) Violationf(sig, f string, a ...any) {
 // Failed reports whether any violation was recorded in this case.
 func (c *Ctx) Failed() bool { return len(c.viols) > 0 }
 
+// Shadow returns a fresh context that records into nothing: a body can re-run
+// a case in it to see whether a timing-dependent verdict comes out again
+// before it reports it.
+func (c *Ctx) Shadow() *Ctx { return &Ctx{id: c.id, labels: map[string]int{}} }
+
+// HasViolation reports whether a violation with this signature was recorded.
+func (c *Ctx) HasViolation(sig string) bool {
+	for _, v := range c.viols {
+		if v.Signature == sig {
+			return true
+		}
+	}
+	return false
+}
+
 type knownFile struct {
 	Findings []struct {
 		Property  string `json:"property"`
